@@ -1100,6 +1100,12 @@ fn c08_live(property: &str, seed: u64, index: u64) -> Plan {
         }
         p
     };
+    // a forged packet may legitimately cost an extra acknowledgement, which shifts the timing of
+    // what follows; the twin comparison needs inputs that do not depend on how often a stalled
+    // call was retried
+    if matches!(p.cfg.input_mode, InputMode::PerAttempt) {
+        p.cfg.input_mode = InputMode::Unique;
+    }
     let n = p.nodes.len();
     let np = p.cfg.num_players;
     let n_inj = c.range(&[2], 10, 60);
